@@ -150,3 +150,11 @@ _Q = {
     "GenomicArray.into_ranges|held": 1000, "extra:path:_irange_simple": 1000, "extra:path:_irange_nested": 1000,
 }
 QUOTAS = {"quick": _Q, "thorough": _Q}
+
+
+# the two internal slicing routines are only counted to show that both paths were exercised; if a refactoring removed them the
+# public-API monitors still decide the property
+QUOTA_WAIVERS = {
+    "monitor-unavailable:path._irange_simple": {"waive": ["extra:path:_irange_simple"], "require": {"GenomicArray.into_ranges|held": 1000}},
+    "monitor-unavailable:path._irange_nested": {"waive": ["extra:path:_irange_nested"], "require": {"GenomicArray.into_ranges|held": 1000}},
+}
